@@ -28,6 +28,35 @@ def tok(v):
     return v if type(v) is int else -1
 
 
+class SlotLink(SymlinkNodeMixin):
+    """a link class whose `target` lives in a slot, not in the instance dictionary"""
+    __slots__ = ("target",)
+
+    def __init__(self, target, parent=None, children=None, **kwargs):
+        self.target = target
+        for k, v in kwargs.items():
+            setattr(self.target, k, v)
+        self.parent = parent
+        if children:
+            self.children = children
+
+
+class KindLink(SymlinkNode):
+    """a link class that defines an attribute itself (found by normal lookup, before anything is forwarded)"""
+    kind = 71
+
+
+class ROTarget(AnyNode):
+    """an ordinary node class with a read-only property: assignment raises AttributeError, also through a link"""
+
+    @property
+    def ro(self):
+        return 72
+
+
+LINKCLS = {"node": SymlinkNode, "mixin": MyLink, "slot": SlotLink, "kind": KindLink}
+
+
 def links_of(o):
     return (o.parent, tuple(o.children))
 
@@ -46,11 +75,12 @@ def run_case(c):
                 setattr(objs[op[1]], op[2], val(op[3]))
                 outs.append(["done"])
             elif k == "newlink":
-                cls = SymlinkNode if op[3] == "node" else MyLink
+                cls = LINKCLS[op[3]]
                 objs.append(cls(objs[op[1]], **{kk: val(vv) for kk, vv in op[2]}))
                 outs.append(["done"])
             elif k == "newplain":
-                objs.append(AnyNode(**{kk: val(vv) for kk, vv in op[1]}))
+                pcls = ROTarget if (len(op) > 2 and op[2] == "ro") else AnyNode
+                objs.append(pcls(**{kk: val(vv) for kk, vv in op[1]}))
                 outs.append(["done"])
             elif k == "move":
                 a, b = objs[op[1]], (None if op[2] is None else objs[op[2]])
